@@ -14,10 +14,14 @@
 #include <functional>
 #include <stdexcept>
 #include <string>
+#include <algorithm>
 #define MPI_VERSION 3
 #define MPI_SUBVERSION 1
 typedef int MPI_Comm; typedef int MPI_Datatype; typedef int MPI_Op; typedef int MPI_Request; struct MPI_Status { int MPI_SOURCE, MPI_TAG, MPI_ERROR; };
 #define MPI_COMM_WORLD 0
+#define MPI_COMM_NULL (-1)
+#define MPI_COMM_SELF (-2)
+#define MPI_UNDEFINED (-32766)
 #define MPI_STATUSES_IGNORE ((MPI_Status*)0)
 #define MPI_STATUS_IGNORE ((MPI_Status*)0)
 #define MPI_SUCCESS 0
@@ -27,9 +31,9 @@ enum { MPI_CHAR=1, MPI_INT, MPI_UNSIGNED, MPI_LONG_LONG_INT, MPI_UNSIGNED_LONG_L
 enum { MPI_SUM=1, MPI_PROD, MPI_MAX, MPI_MIN, MPI_LOR, MPI_LAND };
 namespace symmpi {
 struct DT { size_t size; int base; int count; };
-struct Msg { int src, dst, tag; std::vector<char> data; };
+struct Msg { int src, dst, tag, comm; std::vector<char> data; };
 struct Req { bool recv; void *buf; size_t bytes; int peer, tag; bool done; };
-struct World { int R=1; std::mutex G; std::condition_variable cv; std::deque<Msg> queue; std::vector<DT> derived; std::map<long,std::vector<std::vector<char>>> coll; std::map<long,int> coll_left; std::vector<long> coll_seq; std::vector<std::vector<Req>> reqs; bool failed=false; std::string failure; };
+struct World { int R=1; std::mutex G; std::condition_variable cv; std::deque<Msg> queue; std::vector<DT> derived; std::map<std::pair<int,long>,std::vector<std::vector<char>>> coll; std::map<std::pair<int,long>,int> coll_left; std::map<std::pair<int,int>,long> coll_seq; std::vector<std::vector<int>> comms; std::map<std::vector<int>,int> comm_ids; std::vector<std::vector<Req>> reqs; bool failed=false; std::string failure; };
 inline World &world() { static World w; return w; }
 inline int &my_rank() { static thread_local int r=0; return r; }
 inline std::unique_lock<std::mutex> *&my_lock() { static thread_local std::unique_lock<std::mutex> *l=nullptr; return l; }
@@ -45,27 +49,35 @@ inline void reduce_elem(int op, int base, char *acc, const char *in) { switch (b
     case MPI_CHAR: { char a=*acc,b=*in; red(op,a,b); *acc=a; break; } case MPI_SYMX: symx_reduce()(op,acc,in); break; default: throw std::runtime_error("symmpi: reduction on unsupported datatype"); } }
 inline void wait_until(const std::function<bool()> &ready) { World &w=world(); auto &lk=*my_lock(); while (!ready()) { if (w.failed) throw std::runtime_error("symmpi: another rank failed: "+w.failure); w.cv.wait(lk); } }
 // generic collective: every rank deposits `bytes` bytes; returns all contributions in rank order
-inline std::vector<std::vector<char>> exchange(const void *buf, size_t bytes) { World &w=world(); int r=my_rank(); long seq=w.coll_seq[r]++; auto &slot=w.coll[seq]; if (slot.empty()) { slot.resize(w.R); w.coll_left[seq]=w.R; } slot[r].assign((const char*)buf,(const char*)buf+bytes); slot[r].push_back(1); w.cv.notify_all();
-    wait_until([&]{ for (auto &s : w.coll[seq]) if (s.empty()) return false; return true; }); std::vector<std::vector<char>> all=w.coll[seq]; for (auto &s : all) s.pop_back(); if (--w.coll_left[seq]==0) { w.coll.erase(seq); w.coll_left.erase(seq); } return all; }
+inline int comm_rank(int comm) { World &w=world(); if (comm==MPI_COMM_SELF) return 0; const auto &g=w.comms.at(comm); for (size_t i=0;i<g.size();++i) if (g[i]==my_rank()) return (int)i; throw std::runtime_error("symmpi: rank is not a member of the communicator"); }
+inline int comm_size(int comm) { return comm==MPI_COMM_SELF ? 1 : (int)world().comms.at(comm).size(); }
+inline int to_world(int comm, int r) { return comm==MPI_COMM_SELF ? my_rank() : world().comms.at(comm).at(r); }
+inline std::vector<std::vector<char>> exchange(const void *buf, size_t bytes, int comm=0) { World &w=world(); if (comm==MPI_COMM_SELF) return {std::vector<char>((const char*)buf,(const char*)buf+bytes)}; int r=comm_rank(comm), n=comm_size(comm); long seq=w.coll_seq[{comm,my_rank()}]++; auto key=std::make_pair(comm,seq); auto &slot=w.coll[key]; if (slot.empty()) { slot.resize(n); w.coll_left[key]=n; } slot[r].assign((const char*)buf,(const char*)buf+bytes); slot[r].push_back(1); w.cv.notify_all();
+    wait_until([&]{ for (auto &s : w.coll[key]) if (s.empty()) return false; return true; }); std::vector<std::vector<char>> all=w.coll[key]; for (auto &s : all) s.pop_back(); if (--w.coll_left[key]==0) { w.coll.erase(key); w.coll_left.erase(key); } return all; }
 // run fn on R ranks; rethrows the first failure
-inline void run(int R, const std::function<void(int)> &fn) { World &w=world(); w.R=R; w.queue.clear(); w.coll.clear(); w.coll_left.clear(); w.coll_seq.assign(R,0); w.reqs.assign(R,{}); w.failed=false; w.failure.clear(); std::vector<std::thread> th;
+inline void run(int R, const std::function<void(int)> &fn) { World &w=world(); w.R=R; w.queue.clear(); w.coll.clear(); w.coll_left.clear(); w.coll_seq.clear(); w.reqs.assign(R,{}); w.comms.clear(); w.comm_ids.clear(); { std::vector<int> all; for (int r=0;r<R;++r) all.push_back(r); w.comms.push_back(all); w.comm_ids[all]=0; } w.failed=false; w.failure.clear(); std::vector<std::thread> th;
     for (int r=0;r<R;++r) th.emplace_back([&,r]{ std::unique_lock<std::mutex> lk(w.G); my_rank()=r; my_lock()=&lk; try { fn(r); } catch (const std::exception &e) { if (!w.failed) { w.failed=true; w.failure=e.what(); } } catch (...) { if (!w.failed) { w.failed=true; w.failure="engine stop / unknown exception in a rank"; } } w.cv.notify_all(); my_lock()=nullptr; });
     for (auto &t : th) t.join(); if (w.failed) throw std::runtime_error("symmpi: "+w.failure); }
 }
 inline int MPI_Init(int*, char***) { return 0; } inline int MPI_Init_thread(int*, char***, int, int *p) { if (p) *p=MPI_THREAD_MULTIPLE; return 0; } inline int MPI_Finalize() { return 0; } inline int MPI_Initialized(int *f) { *f=1; return 0; }
-inline int MPI_Comm_rank(MPI_Comm, int *r) { *r=symmpi::my_rank(); return 0; } inline int MPI_Comm_size(MPI_Comm, int *s) { *s=symmpi::world().R; return 0; } inline double MPI_Wtime() { return 0; } inline int MPI_Abort(MPI_Comm, int) { throw std::runtime_error("MPI_Abort"); }
+inline int MPI_Comm_rank(MPI_Comm c, int *r) { *r=symmpi::comm_rank(c); return 0; } inline int MPI_Comm_size(MPI_Comm c, int *s) { *s=symmpi::comm_size(c); return 0; } inline double MPI_Wtime() { return 0; } inline int MPI_Abort(MPI_Comm, int) { throw std::runtime_error("MPI_Abort"); }
 inline int MPI_Type_contiguous(int count, MPI_Datatype base, MPI_Datatype *t) { auto &w=symmpi::world(); w.derived.push_back({symmpi::dt_size(base)*count, base, count}); *t=MPI_FIRST_DERIVED+(int)w.derived.size()-1; return 0; } inline int MPI_Type_commit(MPI_Datatype*) { return 0; } inline int MPI_Type_free(MPI_Datatype*) { return 0; }
-inline int MPI_Isend(const void *buf, int count, MPI_Datatype dt, int dest, int tag, MPI_Comm, MPI_Request *req) { auto &w=symmpi::world(); symmpi::Msg m; m.src=symmpi::my_rank(); m.dst=dest; m.tag=tag; size_t b=symmpi::dt_size(dt)*count; m.data.assign((const char*)buf,(const char*)buf+b); w.queue.push_back(m); w.cv.notify_all(); auto &rq=w.reqs[symmpi::my_rank()]; rq.push_back({false,nullptr,0,dest,tag,true}); *req=(int)rq.size()-1; return 0; }
-inline int MPI_Irecv(void *buf, int count, MPI_Datatype dt, int source, int tag, MPI_Comm, MPI_Request *req) { auto &rq=symmpi::world().reqs[symmpi::my_rank()]; rq.push_back({true,buf,symmpi::dt_size(dt)*count,source,tag,false}); *req=(int)rq.size()-1; return 0; }
+inline int MPI_Isend(const void *buf, int count, MPI_Datatype dt, int dest, int tag, MPI_Comm cm, MPI_Request *req) { auto &w=symmpi::world(); symmpi::Msg m; m.src=symmpi::my_rank(); m.dst=symmpi::to_world(cm,dest); m.tag=tag+1000003*cm; m.comm=cm; size_t b=symmpi::dt_size(dt)*count; m.data.assign((const char*)buf,(const char*)buf+b); w.queue.push_back(m); w.cv.notify_all(); auto &rq=w.reqs[symmpi::my_rank()]; rq.push_back({false,nullptr,0,dest,tag,true}); *req=(int)rq.size()-1; return 0; }
+inline int MPI_Irecv(void *buf, int count, MPI_Datatype dt, int source, int tag, MPI_Comm cm, MPI_Request *req) { auto &rq=symmpi::world().reqs[symmpi::my_rank()]; rq.push_back({true,buf,symmpi::dt_size(dt)*count,symmpi::to_world(cm,source),tag+1000003*cm,false}); *req=(int)rq.size()-1; return 0; }
 inline int MPI_Wait(MPI_Request *req, MPI_Status*) { if (*req<0) return 0; auto &w=symmpi::world(); int me=symmpi::my_rank(); symmpi::Req &r=w.reqs[me][*req]; if (r.recv && !r.done) { symmpi::wait_until([&]{ for (auto &m : w.queue) if (m.dst==me && m.src==r.peer && m.tag==r.tag) return true; return false; });
         for (auto it=w.queue.begin(); it!=w.queue.end(); ++it) if (it->dst==me && it->src==r.peer && it->tag==r.tag) { if (it->data.size()>r.bytes) throw std::runtime_error("symmpi: message longer than the receive buffer"); memcpy(r.buf,it->data.data(),it->data.size()); w.queue.erase(it); break; } r.done=true; } *req=MPI_REQUEST_NULL; return 0; }
 inline int MPI_Waitall(int n, MPI_Request *reqs, MPI_Status*) { for (int i=0;i<n;++i) MPI_Wait(&reqs[i],0); return 0; }
 inline int MPI_Send(const void *buf, int count, MPI_Datatype dt, int dest, int tag, MPI_Comm c) { MPI_Request r; return MPI_Isend(buf,count,dt,dest,tag,c,&r); }
 inline int MPI_Recv(void *buf, int count, MPI_Datatype dt, int src, int tag, MPI_Comm c, MPI_Status *s) { MPI_Request r; MPI_Irecv(buf,count,dt,src,tag,c,&r); return MPI_Wait(&r,s); }
-inline int MPI_Barrier(MPI_Comm) { char c=0; symmpi::exchange(&c,1); return 0; }
-inline int MPI_Allgather(const void *sb, int sc, MPI_Datatype st, void *rb, int rc, MPI_Datatype rt, MPI_Comm) { auto all=symmpi::exchange(sb,symmpi::dt_size(st)*sc); size_t rbs=symmpi::dt_size(rt)*rc; for (size_t r=0;r<all.size();++r) memcpy((char*)rb+r*rbs,all[r].data(),all[r].size()); return 0; }
-inline int MPI_Gather(const void *sb, int sc, MPI_Datatype st, void *rb, int rc, MPI_Datatype rt, int root, MPI_Comm) { auto all=symmpi::exchange(sb,symmpi::dt_size(st)*sc); if (symmpi::my_rank()==root) { size_t rbs=symmpi::dt_size(st)*sc; for (size_t r=0;r<all.size();++r) memcpy((char*)rb+r*rbs,all[r].data(),all[r].size()); } (void)rc; (void)rt; return 0; }
-inline int MPI_Alltoall(const void *sb, int sc, MPI_Datatype st, void *rb, int rc, MPI_Datatype rt, MPI_Comm) { int R=symmpi::world().R; size_t sbs=symmpi::dt_size(st)*sc, rbs=symmpi::dt_size(rt)*rc; auto all=symmpi::exchange(sb,sbs*R); int me=symmpi::my_rank(); for (int r=0;r<R;++r) memcpy((char*)rb+r*rbs,all[r].data()+me*sbs,sbs); return 0; }
-inline int MPI_Allreduce(const void *sb, void *rb, int count, MPI_Datatype dt, MPI_Op op, MPI_Comm) { size_t n=count; int base=symmpi::dt_base(dt,n); size_t es=symmpi::dt_size(base); auto all=symmpi::exchange(sb,es*n); std::vector<char> acc=all[0]; for (size_t r=1;r<all.size();++r) for (size_t i=0;i<n;++i) symmpi::reduce_elem(op,base,acc.data()+i*es,all[r].data()+i*es); memcpy(rb,acc.data(),es*n); return 0; }
-inline int MPI_Exscan(const void *sb, void *rb, int count, MPI_Datatype dt, MPI_Op op, MPI_Comm) { size_t n=count; int base=symmpi::dt_base(dt,n); size_t es=symmpi::dt_size(base); auto all=symmpi::exchange(sb,es*n); int me=symmpi::my_rank(); if (me>0) { std::vector<char> acc=all[0]; for (int r=1;r<me;++r) for (size_t i=0;i<n;++i) symmpi::reduce_elem(op,base,acc.data()+i*es,all[r].data()+i*es); memcpy(rb,acc.data(),es*n); } return 0; }
-inline int MPI_Bcast(void *buf, int count, MPI_Datatype dt, int root, MPI_Comm) { size_t b=symmpi::dt_size(dt)*count; auto all=symmpi::exchange(buf,b); memcpy(buf,all[root].data(),b); return 0; }
+inline int MPI_Barrier(MPI_Comm cm) { char c=0; symmpi::exchange(&c,1,cm); return 0; }
+inline int MPI_Allgather(const void *sb, int sc, MPI_Datatype st, void *rb, int rc, MPI_Datatype rt, MPI_Comm cm) { auto all=symmpi::exchange(sb,symmpi::dt_size(st)*sc,cm); size_t rbs=symmpi::dt_size(rt)*rc; for (size_t r=0;r<all.size();++r) memcpy((char*)rb+r*rbs,all[r].data(),all[r].size()); return 0; }
+inline int MPI_Gather(const void *sb, int sc, MPI_Datatype st, void *rb, int rc, MPI_Datatype rt, int root, MPI_Comm cm) { auto all=symmpi::exchange(sb,symmpi::dt_size(st)*sc,cm); if (symmpi::comm_rank(cm)==root) { size_t rbs=symmpi::dt_size(st)*sc; for (size_t r=0;r<all.size();++r) memcpy((char*)rb+r*rbs,all[r].data(),all[r].size()); } (void)rc; (void)rt; return 0; }
+inline int MPI_Alltoall(const void *sb, int sc, MPI_Datatype st, void *rb, int rc, MPI_Datatype rt, MPI_Comm cm) { int R=symmpi::comm_size(cm); size_t sbs=symmpi::dt_size(st)*sc, rbs=symmpi::dt_size(rt)*rc; auto all=symmpi::exchange(sb,sbs*R,cm); int me=symmpi::comm_rank(cm); for (int r=0;r<R;++r) memcpy((char*)rb+r*rbs,all[r].data()+me*sbs,sbs); return 0; }
+inline int MPI_Allreduce(const void *sb, void *rb, int count, MPI_Datatype dt, MPI_Op op, MPI_Comm cm) { size_t n=count; int base=symmpi::dt_base(dt,n); size_t es=symmpi::dt_size(base); auto all=symmpi::exchange(sb,es*n,cm); std::vector<char> acc=all[0]; for (size_t r=1;r<all.size();++r) for (size_t i=0;i<n;++i) symmpi::reduce_elem(op,base,acc.data()+i*es,all[r].data()+i*es); memcpy(rb,acc.data(),es*n); return 0; }
+inline int MPI_Exscan(const void *sb, void *rb, int count, MPI_Datatype dt, MPI_Op op, MPI_Comm cm) { size_t n=count; int base=symmpi::dt_base(dt,n); size_t es=symmpi::dt_size(base); auto all=symmpi::exchange(sb,es*n,cm); int me=symmpi::comm_rank(cm); if (me>0) { std::vector<char> acc=all[0]; for (int r=1;r<me;++r) for (size_t i=0;i<n;++i) symmpi::reduce_elem(op,base,acc.data()+i*es,all[r].data()+i*es); memcpy(rb,acc.data(),es*n); } return 0; }
+inline int MPI_Bcast(void *buf, int count, MPI_Datatype dt, int root, MPI_Comm cm) { size_t b=symmpi::dt_size(dt)*count; auto all=symmpi::exchange(buf,b,cm); memcpy(buf,all[root].data(),b); return 0; }
+inline int MPI_Ialltoall(const void *sb, int sc, MPI_Datatype st, void *rb, int rc, MPI_Datatype rt, MPI_Comm cm, MPI_Request *req) { MPI_Alltoall(sb,sc,st,rb,rc,rt,cm); *req=MPI_REQUEST_NULL; return 0; }
+inline int MPI_Comm_split(MPI_Comm cm, int color, int key, MPI_Comm *out) { int ck[2]={color,key}; auto all=symmpi::exchange(ck,sizeof ck,cm); if (color==MPI_UNDEFINED) { *out=MPI_COMM_NULL; return 0; } std::vector<std::pair<int,int>> mem; for (size_t r=0;r<all.size();++r) { int c2[2]; memcpy(c2,all[r].data(),sizeof c2); if (c2[0]==color) mem.push_back({c2[1],symmpi::to_world(cm,(int)r)}); }
+    std::stable_sort(mem.begin(),mem.end(),[](const std::pair<int,int>&a,const std::pair<int,int>&b){ return a.first<b.first; }); std::vector<int> g; for (auto &m : mem) g.push_back(m.second); auto &w=symmpi::world(); auto it=w.comm_ids.find(g); if (it==w.comm_ids.end()) { w.comms.push_back(g); it=w.comm_ids.insert({g,(int)w.comms.size()-1}).first; } *out=it->second; return 0; }
+inline int MPI_Comm_free(MPI_Comm *c) { *c=MPI_COMM_NULL; return 0; }
+inline int MPI_Comm_dup(MPI_Comm c, MPI_Comm *o) { *o=c; return 0; }
